@@ -16,6 +16,7 @@ type world struct {
 	net      *netlib.Net
 	coreSegs []*seg.PathSegment
 	segsAt   map[int][]*seg.PathSegment // non-core AS index -> segments terminated there
+	full     bool                       // every beacon is propagated on every interface (fixed worlds)
 	desc     string
 }
 
@@ -177,7 +178,7 @@ func (w *world) beacon(r *vlib.Rand) error {
 			if visited[f.Nbr] {
 				continue
 			}
-			if b.In != 0 && r.Chance(15) {
+			if !w.full && b.In != 0 && r.Chance(15) {
 				continue // not every beacon is propagated on every interface
 			}
 			nb, err := n.Propagate(b, id)
@@ -212,4 +213,54 @@ func (w *world) beacon(r *vlib.Rand) error {
 		}
 	}
 	return nil
+}
+
+// peerWorld is a fixed shape that every run contains: one core AS with two chains of three
+// non-core ASes below it (depths 1..3) and peering links between the two chains at depth 1 and at
+// depth 2.  It yields peering paths whose up and down segments have 2, 3 hops each, so that there
+// are intermediate ASes (neither source/destination nor peering AS) on Peer-flagged segments.
+// multi: give the ASes 1-3 border routers (otherwise one each, so that every answer is generated by
+// a router that received the packet over an external link).
+func peerWorld(r *vlib.Rand, multi bool) (*world, error) {
+	// 0 = core, 1..3 = chain A (depth 1..3), 4..6 = chain B
+	var ias []addr.IA
+	var cores []bool
+	var nr []int
+	var mx []uint8
+	for i := 0; i < 7; i++ {
+		ias = append(ias, addr.MustParseIA(fmt.Sprintf("1-ff00:0:%x", 0x210+i)))
+		cores = append(cores, i == 0)
+		n := 1
+		if multi {
+			n = r.Range(1, 3)
+		}
+		nr = append(nr, n)
+		mx = append(mx, uint8(r.Range(20, 255)))
+	}
+	al := &idAlloc{r: r}
+	for i := 0; i < 7; i++ {
+		al.used = append(al.used, map[uint16]bool{})
+	}
+	var links []netlib.Link
+	link := func(a, b int, kind string) {
+		links = append(links, netlib.Link{A: a, AIf: al.fresh(a), B: b, BIf: al.fresh(b), Kind: kind})
+	}
+	link(0, 1, netlib.PC)
+	link(1, 2, netlib.PC)
+	link(2, 3, netlib.PC)
+	link(0, 4, netlib.PC)
+	link(4, 5, netlib.PC)
+	link(5, 6, netlib.PC)
+	link(1, 4, netlib.Peer)
+	link(2, 5, netlib.Peer)
+	net, err := netlib.NewNet(r, ias, cores, nr, mx, links)
+	if err != nil {
+		return nil, err
+	}
+	w := &world{net: net, segsAt: map[int][]*seg.PathSegment{}, full: true}
+	w.desc = fmt.Sprintf("fixed peering world (core + two chains of depth 3, peering at depth 1 and 2), multi=%v", multi)
+	if err := w.beacon(r); err != nil {
+		return nil, err
+	}
+	return w, nil
 }
